@@ -254,10 +254,10 @@ func vhC10Persistence() {
 	c.segs = append(c.segs, []byte("GET /sentinel HTTP/1.1\r\nHost: a\r\nConnection: close\r\n\r\n"))
 	s := &Server{NoDefaultDate: true, NoDefaultServerHeader: true}
 	s.DisableKeepalive = vBool("disableKeepalive")
-	if vBool("maxRequests") {
-		s.MaxRequestsPerConn = 1
-	}
+	s.MaxRequestsPerConn = vChoose("maxRequestsPerConn", 3) // 0: unlimited
+	s.ReduceMemoryUsage = vBool("reduceMemory")
 	handlerClose := vChoose("handlerCloseAt", nreq+1) // == nreq: never
+	timeoutAt := vChoose("handlerTimeoutErrorAt", nreq+1) // == nreq: never
 	type seen struct {
 		http10, reqClose, reqKeepAlive bool
 	}
@@ -272,6 +272,11 @@ func vhC10Persistence() {
 			reqKeepAlive: string(ctx.Request.Header.Peek("Connection")) == "keep-alive",
 		})
 		ctx.SetBodyString("ok")
+		if len(reqs)-1 == timeoutAt {
+			// the handler gives up on this request: the server answers with
+			// the timeout response and goes on with a fresh context
+			ctx.TimeoutError("late")
+		}
 	}
 	s.ServeConn(c)
 	rs, ok := vsParseResponses(c.wrote)
@@ -287,7 +292,7 @@ func vhC10Persistence() {
 			good = false
 		}
 		q := reqs[i]
-		must := q.reqClose || (q.http10 && !q.reqKeepAlive) || s.DisableKeepalive || (s.MaxRequestsPerConn > 0 && i+1 >= s.MaxRequestsPerConn) || i == handlerClose
+		must := q.reqClose || (q.http10 && !q.reqKeepAlive) || s.DisableKeepalive || (s.MaxRequestsPerConn > 0 && i+1 >= s.MaxRequestsPerConn) || (i == handlerClose && i != timeoutAt)
 		if must && !r.close {
 			mustClose = false
 		}
